@@ -6,6 +6,7 @@ import (
 	"context"
 	"errors"
 	"fmt"
+	"net"
 	"net/http"
 	"net/http/httptest"
 	"net/url"
@@ -37,6 +38,10 @@ type c13Case struct {
 	CallerMD MDSpec            `json:",omitempty"`
 	Fail     uint32            `json:",omitempty"` // the handler fails with this code (the call still reached the server)
 	Append   bool              `json:",omitempty"` // the caller attaches part of its metadata with AppendToOutgoingContext
+	// Host: how the base URL names the server: "" = as httptest gives it (127.0.0.1:port), "ipv6" = [::1]:port,
+	// "name" = example.com:port, "noport" = example.com (default port); the connection always goes to the
+	// real test server
+	Host string `json:",omitempty"`
 }
 
 type testCreds struct {
@@ -157,7 +162,31 @@ func propC13(c c13Case) *Outcome {
 		}
 		u, _ := url.Parse(srv.URL)
 		wantAddr = u.Host
-		crt = &countingRT{rt: srv.Client().Transport}
+		rt := srv.Client().Transport
+		if c.Host != "" {
+			o.class("base-url-host=%s", c.Host)
+			real := u.Host
+			_, port, _ := net.SplitHostPort(real)
+			defPort := "80"
+			if c.TLS {
+				defPort = "443"
+			}
+			switch c.Host {
+			case "ipv6":
+				u.Host, wantAddr = "[::1]:"+port, net.JoinHostPort("::1", port)
+			case "name":
+				u.Host, wantAddr = "example.com:"+port, "example.com:"+port
+			default:
+				u.Host, wantAddr = "example.com", "example.com:"+defPort
+			}
+			tr := rt.(*http.Transport).Clone()
+			tr.DialContext = func(ctx context.Context, network, _ string) (net.Conn, error) {
+				return (&net.Dialer{}).DialContext(ctx, network, real)
+			}
+			defer tr.CloseIdleConnections()
+			rt = tr
+		}
+		crt = &countingRT{rt: rt}
 		conn = &httpgrpc.Channel{Transport: crt, BaseURL: u}
 	}
 	var creds *testCreds
@@ -387,6 +416,9 @@ func genC13(t *rapid.T) c13Case {
 	c.HdrOpt = rapid.Bool().Draw(t, "hdropt")
 	c.CallerMD = genMD(t, "caller", 3)
 	c.Append = rapid.Bool().Draw(t, "append")
+	if c.Carrier != cInproc {
+		c.Host = rapid.SampledFrom([]string{"", "", "ipv6", "name", "noport"}).Draw(t, "host")
+	}
 	if rapid.IntRange(0, 3).Draw(t, "fail") == 0 {
 		c.Fail = rapid.SampledFrom([]uint32{5, 9, 13}).Draw(t, "failcode")
 	}
